@@ -95,8 +95,8 @@ Print Assumptions c09_ds_expired_never_returned.
        ConnectedAddrTTL (pstoreds keeps expiries as unix seconds);
      - every TTL given to AddAddrs / SetAddrs / UpdateAddrs(new) / ConsumePeerRecord is <= 0, or whole
        seconds, or >= ConnectedAddrTTL;
-     - an AddAddrs / SetAddrs batch with a positive TTL, and every ConsumePeerRecord batch, names no
-       transport address twice (setAddrs appends one entry per occurrence of a new address);
+     - an AddAddrs / SetAddrs / ConsumePeerRecord batch with a positive TTL names no transport address
+       twice (setAddrs appends one entry per occurrence of a new address);
      - sequence numbers are >= 0 (uint64);
    and the lookahead interval is >= 0.
    Observational sense (trace_refines_ds): every answer EQUALS the abstract book's (ConsumePeerRecord
